@@ -2,7 +2,7 @@
 """run every seeded change against the check of the property it breaks; record the outcome in its meta.json"""
 import os, sys, json, subprocess
 V = os.path.dirname(os.path.dirname(os.path.abspath(__file__)))
-labels = sys.argv[1:] or sorted(os.listdir(os.path.join(V, 'seeded')))
+labels = sys.argv[1:] or sorted(x for x in os.listdir(os.path.join(V, 'seeded')) if not x.startswith('_'))
 for lab in labels:
     d = os.path.join(V, 'seeded', lab)
     if not os.path.exists(os.path.join(d, 'meta.json')):
